@@ -71,17 +71,40 @@ theorem pass1_suffix (p : Pool) (bsms : Option (List Bsm)) (insns : List SInsn) 
       | crash s => simp
       | ok l1 => simp [ih' l1, targetOffsets]
 
-/-- the instruction entries the second pass delivers for the instructions `xs` starting at index `k` -/
-def entriesFrom (l : Labels) (pos : Nat → Nat) : Nat → List SInsn → List InsnEntry
-  | _, [] => []
-  | k, x :: xs => ⟨l.get (pos k), none, mapT (labOf l pos) x.insn⟩ :: entriesFrom l pos (k + 1) xs
+/-- the instruction entries the second pass delivers for the instructions `xs` starting at index `k`; `rem` = the
+frames not yet attached -/
+def entriesFrom (l : Labels) (pos : Nat → Nat) : List SFrame → Nat → List SInsn → List InsnEntry
+  | _, _, [] => []
+  | [], k, x :: xs => ⟨l.get (pos k), none, mapT (labOf l pos) x.insn⟩ :: entriesFrom l pos [] (k + 1) xs
+  | f :: rest, k, x :: xs =>
+    if f.at_ = k then ⟨l.get (pos k), some (f.kind.raw l pos), mapT (labOf l pos) x.insn⟩ :: entriesFrom l pos rest (k + 1) xs
+    else ⟨l.get (pos k), none, mapT (labOf l pos) x.insn⟩ :: entriesFrom l pos (f :: rest) (k + 1) xs
+
+/-- frames describe instructions `≥ k`, in strictly increasing order -/
+def Increasing : Nat → List SFrame → Prop
+  | _, [] => True
+  | k, f :: fs => k ≤ f.at_ ∧ Increasing (f.at_ + 1) fs
+
+theorem Increasing.mono {k k' : Nat} (h : k' ≤ k) {fs : List SFrame} (hi : Increasing k fs) : Increasing k' fs := by
+  cases fs with
+  | nil => trivial
+  | cons f fs => exact ⟨Nat.le_trans h hi.1, hi.2⟩
+
+theorem takeFrame_none (frs : Option (List (Nat × Frame))) (label : Option Nat) (h : frs.getD [] = []) :
+    takeFrame frs label = (none, frs) := by
+  cases frs with
+  | none => cases label <;> rfl
+  | some l => simp at h; subst h; cases label <;> rfl
 
 theorem pass2_suffix (p : Pool) (bsms : Option (List Bsm)) (insns : List SInsn) (hleg : CodeLegal p bsms insns)
-    (l : Labels) (hlab : ∀ i (h : i < insns.length), TargetsLabelled l (codePos insns) insns[i].insn)
-    (pre xs : List SInsn) (hins : insns = pre ++ xs) (fuel : Nat) (hfuel : xs.length ≤ fuel) (acc : List InsnEntry) :
-    pass2 p bsms l fuel none acc (codePos insns pre.length, encInsns (codePos insns) xs (codePos insns pre.length))
-      = ok (acc.reverse ++ entriesFrom l (codePos insns) pre.length xs) := by
-  induction xs generalizing pre fuel acc with
+    (l : Labels) (hwf : l.WF) (hlab : ∀ i (h : i < insns.length), TargetsLabelled l (codePos insns) insns[i].insn)
+    (pre xs : List SInsn) (hins : insns = pre ++ xs) (fuel : Nat) (hfuel : xs.length ≤ fuel) (acc : List InsnEntry)
+    (rem : List SFrame) (hinc : Increasing pre.length rem)
+    (hremlab : ∀ f ∈ rem, f.at_ < insns.length ∧ (l.get (codePos insns f.at_)).isSome = true)
+    (frs : Option (List (Nat × Frame))) (hfrs : frs.getD [] = framesRaw l (codePos insns) rem) :
+    pass2 p bsms l fuel frs acc (codePos insns pre.length, encInsns (codePos insns) xs (codePos insns pre.length))
+      = ok (acc.reverse ++ entriesFrom l (codePos insns) rem pre.length xs) := by
+  induction xs generalizing pre fuel acc rem frs with
   | nil => cases fuel <;> simp [pass2, encInsns, entriesFrom]
   | cons x xs ih =>
     have hlen : pre.length < insns.length := by simp [hins]
@@ -103,10 +126,50 @@ theorem pass2_suffix (p : Pool) (bsms : Option (List Bsm)) (insns : List SInsn) 
         cases h : x.encode (codePos insns) (codePos insns pre.length) with
         | nil => exact absurd h this
         | cons b bs => simp
-      have ih' := ih (pre ++ [x]) (by simp [hins]) fuel (by simp at hfuel; omega)
+      have ih' := fun acc rem hinc hremlab frs hfrs => ih (pre ++ [x]) (by simp [hins]) fuel (by simp at hfuel; omega) acc rem
+        (by simpa using hinc) hremlab frs hfrs
       simp only [List.length_append, List.length_singleton, hnext] at ih'
       simp only [pass2, encInsns, hne, Bool.false_eq_true, if_false,
-        decodeInsn_encode p bsms l insns.length (codePos insns) _ x hlx ha hpos hlb, ok_bind, takeFrame, ih',
-        List.reverse_cons, List.append_assoc, List.singleton_append, entriesFrom]
+        decodeInsn_encode p bsms l insns.length (codePos insns) _ x hlx ha hpos hlb, ok_bind]
+      cases rem with
+      | nil =>
+        simp only [framesRaw, List.map_nil] at hfrs
+        rw [takeFrame_none frs _ hfrs]
+        simp only []
+        rw [ih' _ [] trivial (by simp) frs (by simpa [framesRaw] using hfrs)]
+        simp [entriesFrom]
+      | cons f rest =>
+        obtain ⟨hk, hrest⟩ := hinc
+        obtain ⟨hfn, hfl⟩ := hremlab f (by simp)
+        have hfrs' : frs = some ((labOf l (codePos insns) f.at_, f.kind.raw l (codePos insns)) :: framesRaw l (codePos insns) rest) := by
+          cases frs with
+          | none => simp [framesRaw] at hfrs
+          | some v => simp [framesRaw] at hfrs ⊢; exact hfrs
+        cases hgf : l.get (codePos insns f.at_) with
+        | none => simp [hgf] at hfl
+        | some idf =>
+          have hlabf : labOf l (codePos insns) f.at_ = idf := by simp [labOf, hgf]
+          by_cases hfk : f.at_ = pre.length
+          · -- the frame belongs to this instruction
+            have hgk : l.get (codePos insns pre.length) = some idf := by rw [← hfk]; exact hgf
+            rw [hfrs', hgk]
+            simp only [takeFrame, hlabf, if_true]
+            rw [ih' _ rest (by rw [← hfk]; exact hrest) (fun g hg => hremlab g (by simp [hg])) (some (framesRaw l (codePos insns) rest)) rfl]
+            simp [entriesFrom, hfk, hgk]
+          · -- a later instruction: no label here equals the frame's label
+            have hnot : takeFrame frs (l.get (codePos insns pre.length)) = (none, frs) := by
+              rw [hfrs']
+              cases hgk : l.get (codePos insns pre.length) with
+              | none => rfl
+              | some idk =>
+                have : idf ≠ idk := by
+                  intro e; subst e
+                  have := hwf.inj _ _ _ hgf hgk
+                  exact hfk (codePos_inj insns f.at_ pre.length (Nat.le_of_lt hfn) (Nat.le_of_lt hlen) this)
+                simp [takeFrame, hlabf, this]
+            rw [hnot]
+            simp only []
+            rw [ih' _ (f :: rest) ⟨by omega, hrest⟩ hremlab frs hfrs]
+            simp [entriesFrom, hfk]
 
 end ClassRead
